@@ -68,8 +68,10 @@ Check(o) ==
              sameYear == o.D1.dk = "doy" /\ o.D2.dk = "date" /\ ValidDate(d2.y, o.D1.n2, o.D1.n1)
                          /\ DateLess(Date(d2.y, o.D1.n2, o.D1.n1), d2) IN
          Expect(o, "date-range",
-                \/ DateRangeOK(d1, d2, o.val)
-                \/ sameYear /\ o.val = MkInterval(Date(d2.y, o.D1.n2, o.D1.n1), d2),
+                IF sameYear
+                THEN \/ o.val = MkInterval(Date(d2.y, o.D1.n2, o.D1.n1), d2)
+                     \/ DateLess(d1, d2) /\ o.val = MkInterval(d1, d2)
+                ELSE DateRangeOK(d1, d2, o.val),
                 MkInterval(d1, d2))
     [] o.fam = "halfopen" ->
          LET x == PointOf(o.D, o.C, o.ts) IN
